@@ -182,6 +182,36 @@ theorem lookup_retain (f : α → β → Bool) (k : α) (m : Entries α β) (hn 
       · simp [lookup, h1, ih hrest]
       · simp [lookup, h1, ih hrest]
 
+theorem len_put_same_length {k : α} {vs ws : List β} {m : Entries α β}
+    (hl : lookup k m = some vs) (hw : ws.length = vs.length) : len (put k ws m) = len m := by
+  induction m with
+  | nil => simp [lookup] at hl
+  | cons e rest ih =>
+    obtain ⟨n, us⟩ := e
+    by_cases e : n = k
+    · subst e
+      simp only [lookup, if_true] at hl
+      cases hl
+      simp [put, len, hw]
+    · simp only [lookup, e, if_false] at hl
+      simp [put, e, len, ih hl]
+
+theorem len_eq_sum_abs (m : Entries α β) (hn : (m.map Prod.fst).Nodup) :
+    len m = ((m.map Prod.fst).map (fun k => (abs m k).length)).sum := by
+  induction m with
+  | nil => simp [len]
+  | cons e rest ih =>
+    obtain ⟨n, vs⟩ := e
+    simp only [List.map_cons, List.nodup_cons] at hn
+    have h1 : abs ((n, vs) :: rest) n = vs := by simp [abs, lookup]
+    have h2 : ∀ k ∈ rest.map Prod.fst, abs ((n, vs) :: rest) k = abs rest k := by
+      intro k hk
+      have : n ≠ k := fun e => hn.1 (e ▸ hk)
+      simp [abs, lookup, this]
+    simp only [len, List.map_cons, List.sum_cons, h1, ih hn.2]
+    congr 1
+    exact congrArg List.sum (List.map_congr_left (fun k hk => by rw [h2 k hk]))
+
 theorem len_eq_pairs (m : Entries α β) : len m = (pairs m).length := by
   induction m with
   | nil => simp [len, pairs]
